@@ -168,6 +168,9 @@ def expect (kind : SyntaxKind) : G Bool := do
 
 structure Marker where
   pos : Nat
+  /-- ghost: the marker was created by `CompletedMarker::precede`, i.e. an earlier event's
+  forward-parent link points at it -/
+  isFp : Bool := false
   deriving DecidableEq, Repr, Inhabited
 
 structure CompletedMarker where
@@ -180,22 +183,28 @@ def start : G Marker := do
   let pos := (← get).events.size
   pushEvent Ev.tombstone
   modify fun s => { s with live := s.live + 1 }
-  return ⟨pos⟩
+  return { pos := pos }
 
 /-- `Marker::complete` -/
 def Marker.complete (m : Marker) (kind : SyntaxKind) : G CompletedMarker := do
   let s ← get
   match s.events[m.pos]? with
-  | some (.start _ fp) =>
-    set { s with events := s.events.set! m.pos (.start kind fp), live := s.live - 1 }
-    pushEvent .finish
-    return ⟨m.pos, kind⟩
+  | some (.start k0 fp) =>
+    -- Rust's move semantics make a second completion impossible; completing with TOMBSTONE
+    -- would leave an unmatched `Finish`: neither is ever done by the grammar
+    if k0 != .TOMBSTONE then fail (.modelError "Marker::complete: marker already completed")
+    else if kind == .TOMBSTONE then fail (.modelError "Marker::complete with TOMBSTONE")
+    else
+      set { s with events := s.events.set! m.pos (.start kind fp), live := s.live - 1 }
+      pushEvent .finish
+      return ⟨m.pos, kind⟩
   | _ => panic "Marker::complete unreachable"
 
 /-- `Marker::abandon` -/
 def Marker.abandon (m : Marker) : G Unit := do
   let s ← get
-  if s.events.size == 0 then panic "Marker::abandon underflow"
+  if m.isFp then fail (.modelError "Marker::abandon of a forward-parent marker")
+  else if s.events.size == 0 then panic "Marker::abandon underflow"
   else if m.pos == s.events.size - 1 then
     match s.events.back? with
     | some (.start .TOMBSTONE none) => set { s with events := s.events.pop, live := s.live - 1 }
@@ -211,7 +220,7 @@ def CompletedMarker.precede (cm : CompletedMarker) : G Marker := do
     if newPos.pos < cm.pos then panic "CompletedMarker::precede u32 underflow"
     else
       set { s with events := s.events.set! cm.pos (.start k (some (newPos.pos - cm.pos))) }
-      return newPos
+      return { newPos with isFp := true }
   | _ => panic "CompletedMarker::precede unreachable"
 
 /-- `CompletedMarker::extend_to` -/
